@@ -1329,7 +1329,8 @@ def c02_corpus(rng, E, quick, fixed):
             sets = ["_/..." + gen.salt(rng, 4), "_5..." + gen.salt(rng, 4), "_J9.." + gen.salt(rng, 4), "_0/.." + gen.salt(rng, 4)]
         elif m in ("bigcrypt", "descrypt"):
             sets = [gen.salt(rng, 2) for _ in range(3)] + [gen.salt(rng, 2) + gen.salt(rng, 22)]
-        ls = lens if not quick else [x for i, x in enumerate(lens) if i % 2 == 0 or x in (8, 9, 64, 72, 73, 128)]
+        cheap = m in ("nt", "md5crypt", "descrypt", "bigcrypt", "bsdicrypt", "sha1crypt")
+        ls = lens if (not quick or cheap) else [x for i, x in enumerate(lens) if i % 2 == 0 or x in (8, 9, 64, 72, 73, 128)]
         if m in ("scrypt",):
             ls = ls[::3] + [33, 64, 65]
         for i, s in enumerate(sets):
@@ -1389,6 +1390,14 @@ def c02_scripts(ctx, E, quick):
                 P[rng.randrange(n)] = rng.choice((0x80, 0xff))
             reqs.append((bytes(P), s))
         per[m] = reqs
+    # gost-yescrypt relative to yescrypt: each $gy$ request is preceded by the $y$ request with the same parameters and salt
+    if "gost_yescrypt" in E and "yescrypt" in E:
+        g = []
+        for n in ((0, 9, 64, 200) if quick else (0, 1, 8, 9, 31, 32, 33, 63, 64, 65, 127, 128, 129, 200, 511)):
+            ph = gen.rand_phrase(rng, n)
+            rest = rng.choice(("j65$", "j75$", "j64$")) + gen.ysalt(rng, rng.choice((0, 4, 8, 22, 86))) + rng.choice(("", "$", "$ignored"))
+            g += [(ph, "$y$" + rest), (ph, "$gy$" + rest)]
+        per["gost_yescrypt"] = g
     allreq = [(m, ph, s) for m, rq in per.items() for (ph, s) in rq]
     cmds = ["cfs 1", "logpc 1", "obj 0 0 0"] + ["crypt_rn 0 %s %s 32768" % (hx(ph), hx(s)) for (_, ph, s) in allreq]
     evs = [e for e in ctx.run_xcv(cmds) if e.get("e") in ("crypt_rn", "Fault")]
@@ -1396,6 +1405,8 @@ def c02_scripts(ctx, E, quick):
     if len(calls) != len(allreq):
         raise Broken("script pass lost calls")
     chunks = {}
+    for e in calls:
+        e["yprev"] = 0
     for (m, ph, s), e in zip(allreq, calls):
         if m == "sunmd5" or len(e.get("cfs", [])) > 600:
             to_instances(e)
@@ -1406,6 +1417,14 @@ def c02_scripts(ctx, E, quick):
     # large traces: split the heavy methods further
     parts = []
     for m in names:
+        if m == "gost_yescrypt":
+            ch = chunks[m]
+            for i in range(0, len(ch), 8):
+                part = ch[i:i + 8]
+                for j in range(1, len(part), 2):
+                    part[j]["yprev"] = j          # 1-based index of the $y$ call just before
+                parts.append((m, part))
+            continue
         step = (1 if m == "sunmd5" else 3) if m in ("sha512crypt", "sha256crypt", "sunmd5", "md5crypt") else 40
         for i in range(0, len(chunks[m]), step):
             parts.append((m, chunks[m][i:i + step]))
